@@ -29,7 +29,8 @@ pub struct CelCompiler<'l> {
 
     // set when a unary minus directly precedes the literal 9223372036854775808,
     // the only int literal whose magnitude needs the sign to be in range
-    negated_int_min: bool,
+    // (the location of that minus: the literal's span starts there)
+    negated_int_min: Option<SourceRange>,
 
     // current recursion depth (parentheses, brackets, unary runs, f-strings, ...)
     nesting_depth: usize,
@@ -53,7 +54,7 @@ impl<'l> CelCompiler<'l> {
             tokenizer,
             bindings: BindContext::for_compile(),
             next_label: 0,
-            negated_int_min: false,
+            negated_int_min: None,
             nesting_depth: 0,
             chained_operators: 0,
         }
@@ -965,23 +966,28 @@ impl<'l> CelCompiler<'l> {
             }) => {
                 self.tokenizer.next()?;
 
-                // `-9223372036854775808`: the minus belongs to the literal
+                // `-9223372036854775808`: the minus belongs to the literal. It is
+                // no negation, so the list of signs ends in front of it and the
+                // literal's node spans it.
                 let absorbed = matches!(
                     self.tokenizer.peek()?.as_token(),
                     Some(Token::IntLit(INT_MIN_MAGNITUDE))
                 );
                 if absorbed {
-                    self.negated_int_min = true;
+                    self.negated_int_min = Some(loc);
+                    return Ok((
+                        CompiledProg::empty(),
+                        AstNode::new(
+                            NegList::EmptyList,
+                            SourceRange::new(loc.start(), loc.start()),
+                        ),
+                    ));
                 }
 
                 self.enter_nested()?;
                 let (neg_list, ast) = self.parse_neg_list()?;
                 self.leave_nested();
-                let node = if absorbed {
-                    neg_list
-                } else {
-                    compile!([ByteCode::Neg.into()], neg_list, neg_list)
-                };
+                let node = compile!([ByteCode::Neg.into()], neg_list, neg_list);
 
                 let range = ast.range().surrounding(loc);
 
@@ -1357,10 +1363,14 @@ impl<'l> CelCompiler<'l> {
                 token: Token::IntLit(val),
                 loc,
             }) => {
-                let negated = std::mem::take(&mut self.negated_int_min);
+                let negated = self.negated_int_min.take();
+                let loc = match negated {
+                    Some(minus) => minus.surrounding(loc),
+                    None => loc,
+                };
                 let val = match i64::try_from(val) {
                     Ok(v) => v,
-                    Err(_) if negated && val == INT_MIN_MAGNITUDE => i64::MIN,
+                    Err(_) if negated.is_some() && val == INT_MIN_MAGNITUDE => i64::MIN,
                     Err(_) => {
                         return Err(SyntaxError::from_location(loc.start())
                             .with_message(format!("Integer literal {} is out of range", val))
